@@ -13,6 +13,7 @@ import AdaptaVerif.Lemmas.StrictWeakOrder
 import AdaptaVerif.Model.Scanline
 import AdaptaVerif.Gen.Makepath
 import AdaptaVerif.Model.RouteCost
+import AdaptaVerif.Lemmas.FrameCost
 namespace AdaptaVerif.Props.C20Tie
 open AdaptaVerif.Gen.Comparators AdaptaVerif.Model.CmpKeys AdaptaVerif.Lemmas.SWO
 open AdaptaVerif.Model.Geometry (Pt)
@@ -167,6 +168,45 @@ theorem shapePairLt_equiv_iff_equal (a b : ShapePairKey) : Incomp shapePairLess 
 theorem gen_dimDirection_is_dimDir (d : Rat) :
     AdaptaVerif.Gen.Makepath.dimDirection d = AdaptaVerif.Model.RouteCost.dimDir d := by
   simp only [AdaptaVerif.Gen.Makepath.dimDirection, AdaptaVerif.Model.RouteCost.dimDir, gt_iff_lt, decide_eq_true_eq]
+
+/-! ### `CmpVisEdgeRotation` (makepath.cpp, after fix 992d05a) — hand model `Model.RouteCost.cmpVisEdge` -/
+
+open AdaptaVerif.Model.RouteCost in
+/-- the model's `ptLt` is the regenerated `Point::operator<` -/
+theorem ptLt_is_gen_pointLt (p q : Pt) : ptLt p q = pointLess p q := by
+  simp only [ptLt, pointLess, pointLt]; grind
+
+open AdaptaVerif.Model.RouteCost in
+/-- among dummy pin edges the order is lexicographic in (lower endpoint, upper endpoint, address) -/
+theorem dummyLt_is_lex :
+    dummyLt = cmpBy (fun e => e.lo.x) (cmpBy (fun e => e.lo.y) (cmpBy (fun e => e.hi.x) (cmpBy (fun e => e.hi.y)
+      (cmpBy EdgeKey.addr (fun _ _ => false))))) := by
+  funext u v
+  simp only [dummyLt, cmpBy]
+  exact AdaptaVerif.Lemmas.FrameCost.dummyLt_aux u.lo u.hi v.lo v.hi u.addr v.addr
+
+open AdaptaVerif.Model.RouteCost in
+/-- … hence a strict weak order (what `list::sort` needs) -/
+theorem dummyLt_strict_weak_order : IsSWO dummyLt := by
+  rw [dummyLt_is_lex]
+  exact swo_cmpBy _ (swo_cmpBy _ (swo_cmpBy _ (swo_cmpBy _ (swo_cmpBy _ swo_false))))
+
+open AdaptaVerif.Model.RouteCost in
+/-- the heap address decides ONLY between two dummy edges with the same pair of endpoints: otherwise the comparator's
+    answer is the same for every assignment of addresses -/
+theorem cmpVisEdge_address_only_at_equal_endpoints (rot : EdgeKey → EdgeKey → Bool) (u v : EdgeKey)
+    (hrot : ∀ a b, rot { u with addr := a } { v with addr := b } = rot u v)
+    (h : u.orth = true ∨ v.orth = true ∨ u.lo ≠ v.lo ∨ u.hi ≠ v.hi) (a b : Nat) :
+    cmpVisEdge rot { u with addr := a } { v with addr := b } = cmpVisEdge rot u v := by
+  simp only [cmpVisEdge, dummyLt, EdgeKey.lo, EdgeKey.hi] at h ⊢
+  rw [hrot]
+  grind
+
+open AdaptaVerif.Model.RouteCost in
+/-- a dummy pin edge is explored before an orthogonal edge, whatever the addresses -/
+theorem cmpVisEdge_dummy_first (rot : EdgeKey → EdgeKey → Bool) (u v : EdgeKey) (hu : u.orth = false) (hv : v.orth = true) :
+    cmpVisEdge rot u v = true ∧ cmpVisEdge rot v u = false := by
+  simp [cmpVisEdge, hu, hv]
 
 /-! ### non-vacuity -/
 example : cmpNodePos ⟨1, 2, 100⟩ ⟨1, 3, 50⟩ = true ∧ cmpNodePos ⟨1, 2, 10⟩ ⟨1, 3, 500⟩ = true := by decide
